@@ -226,4 +226,20 @@ MachineMatchWhy(C, LS, M) ==
      ELSE IF M.start \notin 0..(n - 1) \/ M.states[M.start + 1] # LALRStart(C, LS) THEN [ok |-> FALSE, why |-> "wrong start state"]
      ELSE IF tr # LALRTrans(C, LS) THEN [ok |-> FALSE, why |-> "automaton transitions are not the LALR(1) transitions"]
      ELSE [ok |-> TRUE, why |-> ""]
+\* table-driven run: the same loop as Driver.tla, as a function of the whole input; nds is the node stack (Cfg trees)
+RECURSIVE RunTab(_, _, _, _, _, _)
+RunTab(G, tab, stk, nds, w, i) ==
+  LET a == IF i <= Len(w) THEN w[i] ELSE EOFSYM
+      c == tab.act[<<stk[Len(stk)], a>>]
+      stop == IF i <= Len(w) THEN [t |-> "err", at |-> i, tree |-> Leaf("", 0)] ELSE [t |-> "eof", at |-> i, tree |-> Leaf("", 0)]
+  IN IF c[1] = "e" THEN stop
+     ELSE IF c[1] = "a" THEN [t |-> "acc", at |-> 0, tree |-> nds[Len(nds)]]
+     ELSE IF c[1] = "s" THEN RunTab(G, tab, Append(stk, c[2]), Append(nds, Leaf(a, i)), w, i + 1)
+     ELSE LET r == c[2]
+              k == Len(G.rules[r].rhs)
+              st2 == SubSeq(stk, 1, Len(stk) - k)
+              nd2 == SubSeq(nds, 1, Len(nds) - k)
+              kids == SubSeq(nds, Len(nds) - k + 1, Len(nds))
+              to == tab.go[<<st2[Len(st2)], G.rules[r].lhs>>]
+          IN IF to = -1 THEN stop ELSE RunTab(G, tab, Append(st2, to), Append(nd2, Node(r, kids)), w, i)
 =============================================================================
